@@ -71,6 +71,8 @@ pub enum Op {
     Rel(u32),
     Get(Vec<u8>, Option<u32>),
     Range(Bnd, Bnd, String, Option<u32>),
+    /// range scan with an overlay memtable: (key, Some(value)) = write, (key, None) = delete
+    ORange(Bnd, Bnd, String, Option<u32>, Vec<(Vec<u8>, Option<Vec<u8>>)>),
     Prefix(Vec<u8>, String, Option<u32>),
     Len(Option<u32>),
     First(Option<u32>),
@@ -107,6 +109,7 @@ impl Op {
             self,
             Op::Get(..)
                 | Op::Range(..)
+                | Op::ORange(..)
                 | Op::Prefix(..)
                 | Op::Len(..)
                 | Op::First(..)
@@ -162,6 +165,21 @@ impl Op {
             Op::GetMax(k) => format!("getmax {}", hex(k)),
             Op::Range(lo, hi, p, s) => {
                 format!("range {} {} {p} {}", lo.text(), hi.text(), snap_text(s))
+            }
+            Op::ORange(lo, hi, p, s, items) => {
+                let it = if items.is_empty() {
+                    "-".to_string()
+                } else {
+                    items
+                        .iter()
+                        .map(|(k, v)| match v {
+                            Some(v) => format!("{}:{}", hex(k), hex(v)),
+                            None => format!("{}:!", hex(k)),
+                        })
+                        .collect::<Vec<_>>()
+                        .join(",")
+                };
+                format!("orange {} {} {p} {} {it}", lo.text(), hi.text(), snap_text(s))
             }
             Op::Prefix(k, p, s) => format!("prefix {} {p} {}", hex(k), snap_text(s)),
             Op::Len(s) => format!("len {}", snap_text(s)),
@@ -233,6 +251,22 @@ impl Op {
                 Bnd::parse(t[2]),
                 t[3].to_string(),
                 snap_parse(t[4]),
+            ),
+            "orange" => Op::ORange(
+                Bnd::parse(t[1]),
+                Bnd::parse(t[2]),
+                t[3].to_string(),
+                snap_parse(t[4]),
+                if t[5] == "-" {
+                    vec![]
+                } else {
+                    t[5].split(',')
+                        .map(|x| {
+                            let (k, v) = x.split_once(':').expect("overlay item");
+                            (unhex(k), if v == "!" { None } else { Some(unhex(v)) })
+                        })
+                        .collect()
+                },
             ),
             "prefix" => Op::Prefix(unhex(t[1]), t[2].to_string(), snap_parse(t[3])),
             "len" => Op::Len(snap_parse(t[1])),
